@@ -903,17 +903,247 @@ fn check(case: &C10Case) -> Case {
     Case::pass(max_concurrent >= 2 && !case.crafted.is_empty()).labels(labels)
 }
 
+// ------------------------------------------------------------------------------------------
+// unaccepted: messages nobody picks up. The device runs its transport but NO responder task:
+// every exchange a peer opens stays unaccepted. The statement: such a message is discarded
+// (after the accept deadline), its exchange is closed - with an acknowledgement if one was
+// requested - and subsequent traffic of other exchanges keeps flowing.
+
+#[derive(Debug, Clone, Serialize, Deserialize)]
+struct UnacceptedCase {
+    /// (time ms, exchange id, reliable) of the requests opening exchanges nobody accepts
+    opens: Vec<(u16, u16, bool)>,
+    /// the device application opens an exchange of its own that long after the last of them
+    gap_ms: u16,
+    /// the peer's answer to it is sent that long after the request was seen
+    answer_delay_ms: u16,
+    answer_reliable: bool,
+    sched: Option<u64>,
+    seed: u32,
+}
+
+fn unaccepted_strategy() -> impl Strategy<Value = UnacceptedCase> {
+    (
+        prop::collection::vec((0u16..3000, 1u16..40, any::<bool>()), 1..5),
+        2500u16..6000,
+        0u16..800,
+        any::<bool>(),
+        prop_oneof![1 => Just(None), 3 => any::<u64>().prop_map(Some)],
+        any::<u32>(),
+    )
+        .prop_map(|(opens, gap_ms, answer_delay_ms, answer_reliable, sched, seed)| UnacceptedCase {
+            opens,
+            gap_ms,
+            answer_delay_ms,
+            answer_reliable,
+            sched,
+            seed,
+        })
+}
+
+fn check_unaccepted(case: &UnacceptedCase) -> Case {
+    vh::sim::reset_universe();
+    let net = Net::new(1);
+    let cd = mk_crypto(case.seed);
+    let device = new_matter(5540);
+    let hostile_node: u64 = 0x0000_0000_00BA_D001;
+    let dev_node: u64 = 0x0000_0000_0001_B66A;
+    let hk_in = [0x5au8; 16];
+    let hk_out = [0xa5u8; 16];
+    let hostile_sid = match plant_half(&device, &cd, SessKind::Case, dev_node, hostile_node, 0x0300, 0x0400, alien_addr(0), &hk_in, &hk_out, 1, NocCatIds::default()) {
+        Ok(id) => id,
+        Err(e) => return Case::inconclusive(format!("plant: {e:?}")),
+    };
+    // distinct exchange ids, in time order
+    let mut opens = case.opens.clone();
+    opens.sort();
+    let mut seen_ids = Vec::new();
+    opens.retain(|(_, id, _)| {
+        let fresh = !seen_ids.contains(id);
+        seen_ids.push(*id);
+        fresh
+    });
+    let last_open_ms = opens.iter().map(|o| o.0).max().unwrap_or(0) as u64;
+    let ctr = std::cell::Cell::new(0x0200_0000u32);
+    // counters of the crafted requests, by exchange id
+    let mut sent_ctr: Vec<(u16, u32, bool)> = Vec::new();
+    let got_answer: RefCell<Option<u64>> = RefCell::new(None);
+    let app_error: RefCell<Option<String>> = RefCell::new(None);
+    let mut verdict: Option<Case> = None;
+    {
+        let mut ex = Exec::new(match case.sched {
+            None => Sched::Fifo,
+            Some(s) => Sched::Seeded(s),
+        });
+        ex.add_time_source(&net);
+        ex.spawn("dev.run", async {
+            let _ = device.run(&cd, net.end(0), net.end(0), NoNetwork).await;
+        });
+        // the peer: acknowledges what it is sent and answers the device's own request
+        {
+            let (net, ctr) = (&net, &ctr);
+            let (delay, rel) = (case.answer_delay_ms as u64, case.answer_reliable);
+            ex.spawn("peer", async move {
+                let mut seen = 0usize;
+                let mut due: Vec<(u64, Crafted)> = Vec::new();
+                let mut answered = false;
+                loop {
+                    Timer::after(Duration::from_millis(10)).await;
+                    let now = clock::now();
+                    let mut k = 0;
+                    while k < due.len() {
+                        if due[k].0 <= now {
+                            let (_, c) = due.remove(k);
+                            ctr.set(ctr.get() + 1);
+                            if let Some(bytes) = craft(&hk_in, hostile_node, 0x0300, ctr.get(), &c, 0, 0) {
+                                net.inject(0, alien_addr(0), bytes);
+                            }
+                        } else {
+                            k += 1;
+                        }
+                    }
+                    let new: Vec<Vec<u8>> = net.with_tap(|t| {
+                        let v = t.sent.iter().skip(seen).filter(|s| s.src == 0).map(|s| s.bytes.clone()).collect();
+                        seen = t.sent.len();
+                        v
+                    });
+                    for b in new {
+                        let Some(w) = vh::sim::node::decode_wire(&b, Some(&hk_out), dev_node) else { continue };
+                        if w.sess_id != 0x0400 {
+                            continue;
+                        }
+                        if w.initiator && w.proto_id == APP && !answered {
+                            answered = true;
+                            due.push((
+                                clock::now() + delay * MS,
+                                Crafted { t_ms: 0, exch_id: w.exch_id, initiator: false, reliable: rel, ack: false, kind: CraftKind::App(Beh::Echo) },
+                            ));
+                        }
+                        if w.reliable {
+                            ctr.set(ctr.get() + 1);
+                            let c = Crafted { t_ms: 0, exch_id: w.exch_id, initiator: !w.initiator, reliable: false, ack: true, kind: CraftKind::StandaloneAck };
+                            if let Some(bytes) = craft(&hk_in, hostile_node, 0x0300, ctr.get(), &c, w.ctr, 0) {
+                                net.inject(0, alien_addr(0), bytes);
+                            }
+                        }
+                    }
+                }
+            });
+        }
+        let t0 = clock::now();
+        for (t_ms, exch_id, reliable) in &opens {
+            if ex.run_until(t0 + *t_ms as u64 * MS, || false) == Stop::PollLimit {
+                return Case::inconclusive("poll watchdog");
+            }
+            ctr.set(ctr.get() + 1);
+            let c = Crafted { t_ms: 0, exch_id: *exch_id, initiator: true, reliable: *reliable, ack: false, kind: CraftKind::App(Beh::Echo) };
+            if let Some(bytes) = craft(&hk_in, hostile_node, 0x0300, ctr.get(), &c, 0, 0) {
+                sent_ctr.push((*exch_id, ctr.get(), *reliable));
+                net.inject(0, alien_addr(0), bytes);
+            }
+        }
+        if ex.run_until(t0 + (last_open_ms + case.gap_ms as u64) * MS, || false) == Stop::PollLimit {
+            return Case::inconclusive("poll watchdog");
+        }
+        // subsequent traffic of another exchange: the device's own request and its answer
+        {
+            let (m, c, got, err) = (&device, &cd, &got_answer, &app_error);
+            ex.spawn("dev.app", async move {
+                let mut exch = match Exchange::initiate_for_session(m, c, hostile_sid) {
+                    Ok(e) => e,
+                    Err(e) => {
+                        *err.borrow_mut() = Some(format!("initiate: {:?}", e.code()));
+                        return;
+                    }
+                };
+                if let Err(e) = exch.send(MessageMeta::new(APP, OP_REQ, true), &payload(5, 0, 0, Beh::Echo)).await {
+                    *err.borrow_mut() = Some(format!("send: {:?}", e.code()));
+                    return;
+                }
+                let outcome = match select(exch.recv(), Timer::after(Duration::from_secs(20))).await {
+                    Either::First(Ok(rx)) => {
+                        if parse_beh(rx.payload()).map(|x| x.0) == Some(4) {
+                            Ok(())
+                        } else {
+                            Err("received something else than the answer".to_string())
+                        }
+                    }
+                    Either::First(Err(e)) => Err(format!("recv: {:?}", e.code())),
+                    Either::Second(_) => Err("no answer within 20 s".to_string()),
+                };
+                match outcome {
+                    Ok(()) => *got.borrow_mut() = Some(clock::now()),
+                    Err(e) => *err.borrow_mut() = Some(e),
+                }
+                drop(exch);
+            });
+        }
+        if ex.run_for(30 * SEC) == Stop::PollLimit {
+            return Case::inconclusive("poll watchdog");
+        }
+        if got_answer.borrow().is_none() {
+            verdict = Some(Case::fail(
+                "U1:traffic-blocked-behind-unaccepted-message",
+                format!(
+                    "{} request(s) nobody accepts were received (the last one {} ms earlier, reliable flags {:?}); the device's own exchange then failed: {:?}",
+                    opens.len(),
+                    case.gap_ms,
+                    opens.iter().map(|o| o.2).collect::<Vec<_>>(),
+                    app_error.borrow()
+                ),
+            ));
+        }
+        if verdict.is_none() {
+            ex.run_for(60 * SEC);
+            for s in sessions(&device) {
+                for e in s.exchanges.iter().flatten() {
+                    verdict.get_or_insert_with(|| {
+                        Case::fail(
+                            "U2:unaccepted-exchange-never-closed",
+                            format!("exchange {:#x} (initiator={}, state={}) still occupies a slot 90 s after the message nobody accepted", e.exch_id, e.initiator, e.state),
+                        )
+                    });
+                }
+            }
+        }
+    }
+    if let Some(v) = verdict {
+        return v;
+    }
+    // U3: a request that asked for an acknowledgement is closed with one (or with a session close)
+    let dev_sent: Vec<vh::sim::node::Wire> = net.with_tap(|t| t.sent.iter().filter(|s| s.src == 0).filter_map(|s| vh::sim::node::decode_wire(&s.bytes, Some(&hk_out), dev_node)).collect());
+    let session_alive = sessions(&device).iter().any(|s| s.id == hostile_sid);
+    for (exch_id, c, reliable) in &sent_ctr {
+        if *reliable && session_alive && !dev_sent.iter().any(|w| w.ack == Some(*c)) {
+            return Case::fail(
+                "U3:unaccepted-reliable-message-never-acknowledged",
+                format!("the request on exchange {exch_id:#x} (counter {c:#x}) asked for an acknowledgement; nobody accepted it and it was never acknowledged"),
+            );
+        }
+    }
+    let mut labels = vec![format!("opens={}", opens.len())];
+    if opens.iter().any(|o| !o.2) {
+        labels.push("unreliable-open".into());
+    }
+    if opens.iter().any(|o| o.2) {
+        labels.push("reliable-open".into());
+    }
+    Case::pass(true).labels(labels)
+}
+
 fn main() {
     vh::util::init_stderr_log();
     let mut run = Run::new(
         "C10",
         "exploration",
-        "a device with 2-4 handler tasks and generated per-exchange behaviours (echo, echo late, silent, hold, drop after the first answer) serves 1-4 concurrent multi-round exchanges of an honest controller on 1-2 planted sessions while an authenticated third peer injects 0-11 crafted secured messages (arbitrary exchange id, initiator flag, R/A flags; application requests, stand-alone acks, status reports, CloseSession) at generated instants; generated poll order. Non-trivial: at least two exchanges were alive on the device at the moment of a disturbance and at least one crafted message was injected; distinct = distinct serialized case",
+        "a device with 2-4 handler tasks and generated per-exchange behaviours (echo, echo late, silent, hold, drop after the first answer) serves 1-4 concurrent multi-round exchanges of an honest controller on 1-2 planted sessions while an authenticated third peer injects 0-11 crafted secured messages (arbitrary exchange id, initiator flag, R/A flags; application requests, stand-alone acks, status reports, CloseSession) at generated instants; generated poll order. Second sub-check (unaccepted): a device without any responder task receives 1-4 requests opening exchanges nobody accepts (reliable or not), then - 2.5-6 s after the last - opens an exchange of its own whose answer must arrive; afterwards no exchange slot stays occupied and every request that asked for an acknowledgement got one. Non-trivial (routing): at least two exchanges were alive on the device at the moment of a disturbance and at least one crafted message was injected; distinct = distinct serialized case",
     );
     run.assume("the hostile peer is authenticated (it owns the keys of its own session); its traffic is crafted by the harness with PacketHdr::encode and increasing counters");
     run.assume("'never wedges' is decided as bounded virtual time: a probe request 70 s after the last input must be answered within 30 s, all traffic must have stopped 110 s after the last input and every exchange slot of the device must be free 140 s after it");
     run.assume("a request may legitimately stay unanswered (timeout) when the behaviours in play can occupy every handler task; it must never receive a foreign response");
     let n = run.cases(12_000, 400_000);
     run.prop("routing", n, case_strategy, check);
+    let n = run.cases(4_000, 150_000);
+    run.prop("unaccepted", n, unaccepted_strategy, check_unaccepted);
     run.finish();
 }
